@@ -96,7 +96,9 @@ def strategy_(draw, tier):
     paths = [l.split("\t")[5] for l in lines[:4]]
     return {"gfa": gfa, "gaf": lines, "fasta": base["fasta"], "cuts": cuts, "gfa_cuts": gcuts, "nodes": qnodes,
             "region": "%s:%d-%d" % (contig, a, b), "tsv": "\n".join(tsv) + "\n", "paths": paths,
-            "pysam_writer": big, "bgzf_name": draw(st.sampled_from(["in.gaf.gz", "in.gaf.gz", "in.gaf.bgz", "in.gaf"]))}
+            "pysam_writer": big, "bgzf_name": draw(st.sampled_from(["in.gaf.gz", "in.gaf.gz", "in.gaf.bgz", "in.gaf"])),
+            # gzip header bytes that BGZF leaves to the writer (MTIME, XFL, OS)
+            "bgzf_header": draw(st.sampled_from([None, None, [1700000000, 2, 3], [0, 4, 0]]))}
 
 
 def strategy(tier):
@@ -121,7 +123,7 @@ def write_variant(d, case, gaf_kind, gfa_kind, bgzf_name=None):
             w.close()
             table = [(i * 65280, None) for i in range(len(data) // 65280 + 1)]
         else:
-            table = bgzf.write_bgzf(gaf, data, case["cuts"])
+            table = bgzf.write_bgzf(gaf, data, case["cuts"], header=case.get("bgzf_header"))
     if gfa_kind == "plain":
         gfa = d + "/g.gfa"
         core.write_text(gfa, case["gfa"])
@@ -131,7 +133,7 @@ def write_variant(d, case, gaf_kind, gfa_kind, bgzf_name=None):
             f.write(case["gfa"])
     else:
         gfa = d + "/g.gfa.gz"
-        bgzf.write_bgzf(gfa, case["gfa"].encode(), case["gfa_cuts"])
+        bgzf.write_bgzf(gfa, case["gfa"].encode(), case["gfa_cuts"], header=case.get("bgzf_header"))
     core.write_text(d + "/reads.fa", case["fasta"])
     core.write_text(d + "/h.tsv", case["tsv"])
     core.write_text(d + "/paths.txt", "".join(p + "\n" for p in case["paths"]))
@@ -184,7 +186,7 @@ def run_all(d, case, gaf_kind, gfa_kind):
             stable_path = d + "/stable" + os.path.splitext(gaf)[1].replace(".gaf", "") if gaf.endswith((".gz", ".bgz")) else d + "/stable.gaf"
             if stable_path == d + "/stable":
                 stable_path = d + "/stable.gaf.gz"
-            bgzf.write_bgzf(stable_path, sdata, case["cuts"])
+            bgzf.write_bgzf(stable_path, sdata, case["cuts"], header=case.get("bgzf_header"))
         res2, l2 = idx.run_view(d, stable_path, gfa, d + "/v_fmt2.txt", fmt="unstable")
         put("view --format unstable", res2, l2)
         r = core.call(index.run, stable_path, gfa, d + "/stable.gvi")
@@ -295,6 +297,8 @@ def run_case(case):
     for l in case["gaf"]:
         starts.append(pos)
         pos += len(l) + 1
+    if case.get("bgzf_header"):
+        cl.append("bgzf_header_not_htslib_default")
     if case.get("pysam_writer"):
         bounds = [i * 65280 for i in range(1, pos // 65280 + 1)]
         cl.append("pysam_written_>64KiB")
